@@ -20,7 +20,7 @@ def _isfd(f, x):
     return False
 
 
-def fd_valid(ctx, prog, rule='FD-VALID'):
+def fd_valid(ctx, prog, rule='FD-VALID', minimum=6):
     n = 0
     for f in sorted(prog.lib_fns(), key=lambda f: (f.file, f.line)):
         cnt = 0
@@ -49,7 +49,7 @@ def fd_valid(ctx, prog, rule='FD-VALID'):
                 ctx.ob(rule, key, good, f.loc(c), 'frozen exception (%s): callers %s' % (EXC[(f.name, op, v)], callers), None)
                 continue
             ctx.ob(rule, key, ok, f.loc(c), 'descriptor test `%s`%s' % (f.s(c)[:60], '' if ok else ': treats descriptor 0 as invalid (0 is what open () returns when stdin is closed) — the descriptor is never closed / the file is rejected'), None)
-    ctx.require(n >= 6, 'only %d descriptor validity tests found' % n)
+    ctx.require(n >= minimum, 'only %d descriptor validity tests found' % n)
 
 def state_pair(ctx, prog):
     ctx.rule('STATE-PAIR', 'psf_use_rsrc (psf, SF_TRUE) swaps the resource-fork descriptor into file.filedes (the data descriptor is parked in savedes); every path from such a call to the exit of the '
